@@ -15,8 +15,15 @@ two- or three-token rule fires and `merge` finds no phrase (`foldTwo_benign`, `f
 ≤ 5, and **no such key is in the blacklist** (`benign_fingerprints_absent`, the whole regenerated table
 at once); (4) no `'`/`"`, no `#`/`--` comment counted, so the other four readings are not tried.
 
-Not theorems (sampled by the oracle and compared with the model): the e-mail-like, decimal-number
-and punctuated-sentence families of the property. -/
+**Also proved (`benign_items_not_sqli`, `email_not_sqli`): the e-mail-like family.** A word may be followed
+directly by `@` and a dotted identifier (`name@host.tld`), and such variables may stand alone: `@host.tld` is
+lexed as one variable token (`parseVar_good`), variables are inert in `fold` like barewords and numbers (no rule
+fires without an operator, comma or parenthesis between them), and **no key over `{n,1,v}` is in the blacklist**
+(the table fact now covers the three classes).
+
+Not theorems (sampled by the oracle and compared with the model): the `a.b@c.d`, decimal-number and
+punctuated-sentence families of the property (they involve the `.`-split of `parseWord`, the fraction branch of
+`parseNumber` and folding over `,` `!` `?` `:` tokens). -/
 namespace LibInj.Properties.C14
 open LibInj LibInj.Tables LibInj.Sqli
 
@@ -52,6 +59,57 @@ theorem benign_not_sqli : C14_statement := by
   rcases h w hw with ⟨hword, hk1, hk2⟩ | hnum
   · exact Or.inl ⟨hword, fun _ => hk1, fun _ => hk2⟩
   · exact Or.inr hnum
+
+/-- what may stand between single spaces: a word, an unsigned integer, `word@dotted.identifier`, `@dotted.identifier` -/
+def Item (x : Bytes) : Prop :=
+  (Word x ∧ NotKeywordLike x) ∨ Num x ∨
+  (∃ w vw, x = w ++ 64 :: vw ∧ Word w ∧ NotKeywordLike w ∧ VarBody vw) ∨ (∃ vw, x = 64 :: vw ∧ VarBody vw)
+
+theorem txt_item (x r : Bytes) (hx : Item x) (hsep : Sep r) (hr : Txt r) : Txt (x ++ r) := by
+  rcases hx with ⟨hword, hk1, hk2⟩ | hnum | ⟨w, vw, rfl, hword, ⟨hk1, hk2⟩, hv⟩ | ⟨vw, rfl, hv⟩
+  · exact Txt.word (Or.inl ⟨hword, fun _ => hk1, fun _ => hk2⟩) hsep hr
+  · exact Txt.word (Or.inr hnum) hsep hr
+  · have := Txt.wordAt (w := w) ⟨hword, fun _ => hk1, fun _ => hk2⟩ (Txt.var hv hsep hr)
+    simpa [List.append_assoc] using this
+  · have := Txt.var hv hsep hr
+    simpa using this
+
+theorem txt_items : ∀ (xs : List Bytes), (∀ x ∈ xs, Item x) → Txt (unwords xs)
+  | [], _ => Txt.nil
+  | [x], h => by
+    have := txt_item x [] (h x (by simp)) (Or.inl rfl) Txt.nil
+    simpa [unwords] using this
+  | x :: x' :: t, h => by
+    have ih := txt_items (x' :: t) (fun y hy => h y (List.mem_cons_of_mem _ hy))
+    have := txt_item x (32 :: unwords (x' :: t)) (h x (by simp)) (Or.inr ⟨_, rfl⟩) (Txt.space ih)
+    simpa [unwords] using this
+
+/-- **C14 with the e-mail-like family**: words, unsigned integers, `word@dotted.identifier` and `@dotted.identifier`,
+separated by single spaces, are never reported as SQLi -/
+theorem benign_items_not_sqli (xs : List Bytes) (h : ∀ x ∈ xs, Item x) : isSQLi (unwords xs) = .ok (false, []) :=
+  isSQLi_txt _ (txt_items xs h)
+
+/-- the e-mail shape of the property: `w1@w2.w3` -/
+theorem email_not_sqli (w1 w2 w3 : Bytes) (h1 : Word w1) (hk : NotKeywordLike w1) (h2 : Word w2) (h3 : Word w3) :
+    isSQLi (w1 ++ 64 :: (w2 ++ 46 :: w3)) = .ok (false, []) := by
+  have hv : VarBody (w2 ++ 46 :: w3) := by
+    obtain ⟨c, t, rfl, hc, ht⟩ := h2
+    obtain ⟨c3, t3, rfl, hc3, ht3⟩ := h3
+    refine ⟨c, t ++ 46 :: c3 :: t3, rfl, hc, ?_⟩
+    simp only [List.all_append, List.all_cons, Bool.and_eq_true]
+    refine ⟨?_, by decide, ?_, ?_⟩
+    · exact List.all_eq_true.mpr (fun x hx => by simp [isVarBodyByte, List.all_eq_true.mp ht x hx])
+    · simp [isVarBodyByte, isWordByteB, hc3]
+    · exact List.all_eq_true.mpr (fun x hx => by simp [isVarBodyByte, List.all_eq_true.mp ht3 x hx])
+  have := benign_items_not_sqli [w1 ++ 64 :: (w2 ++ 46 :: w3)] (fun x hx => by
+    have : x = w1 ++ 64 :: (w2 ++ 46 :: w3) := by simpa using hx
+    subst this
+    exact Or.inr (Or.inr (Or.inl ⟨w1, _, rfl, h1, hk, hv⟩)))
+  simpa [unwords] using this
+
+/-- non-vacuity: the conclusion on `joe@example.com 42` is what the kernel computes -/
+example : (match isSQLi [106,111,101,64,101,120,97,109,112,108,101,46,99,111,109,32,52,50] with | .ok (false, []) => true | _ => false) = true := by
+  decide +kernel
 
 /-- non-vacuity: `hello` is a word that is neither a key nor the start of a phrase … -/
 example : Word (bs "hello") := ⟨104, bs "ello", by decide +kernel, by decide +kernel, by decide +kernel⟩
